@@ -313,7 +313,7 @@ class History(object):
                 break
         if size is None or size < 3:
             return False
-        perm = np.random.RandomState(n * 7919 + size).permutation(size)
+        perm = np.random.RandomState((n * 7919 + size) % (2 ** 32)).permutation(size)
         try:
             for key, buf in used:
                 if buf.ndim >= 2 and buf.shape[0] == buf.shape[1] == size:
